@@ -2,12 +2,20 @@
 
 PROP = {'modules': ['AmVerif.Props.C05'],
  'engines': [{'name': 'hr', 'quick': 160, 'thorough': 4000, 'shrink': False,
-              'classes': ['stale-after-hot-reload', 'event-before-hot-reload-missed', 'stale-asset-first-loaded-during-reload', 'sync-timeout']}],
+              'classes': ['stale-after-hot-reload', 'event-before-hot-reload-missed', 'stale-asset-first-loaded-during-reload', 'stale-asset-newly-depending-on-changed-asset', 'sync-timeout']}],
  'rule': 'hot-reloading histories over the in-memory source, 8 families by case index: single-edit attribution probes, non-reloadable entries under load/remove/take/clear/get_or_insert, precision with watchers / unnotified edits / noise, event sent right before hot_reload (no barrier), convergence over random script DAGs (value edits, rewiring, break / repair, file and directory creation and deletion, single / batched / duplicated events) in local and static mode; after every quiescence barrier the value and reload id of every cached entry is dumped and every cached reloadable asset is compared with a fresh load_owned; non-trivial = at least one cache op; distinct = distinct transcripts',
  'assumptions': ['loaders are deterministic functions of what they read', 'notified = EventSender::send returned before hot_reload was called'],
  'trusted': COMMON_TRUSTED + MODEL_TRUSTED + ['modelled, not verified: HashMap / HashSet iteration order (any order), crossbeam channels as FIFO queues, the reloader thread as the function `hotReload` / `handleEvents` (its scheduling is C08)']}
 
-META = {'text': 'TODO',
- 'design_ref': 'DESIGN.md §6 C05',
- 'note': 'TODO',
+META = {'text': 'Proved for ALL graphs, changed sets, environments, states: the graph of the reloader keeps rdeps the exact inverse of deps through '
+         'insert / add_deps / message draining (GraphOK); the list a pass reloads is exactly the registered assets reachable from the changed entries '
+         'through reverse dependencies, each once, every asset after every affected entry it depends on (acyclic look-ups), and the sort returns on '
+         'every graph (cycles included); an event is kept iff the graph tracks the entry; a failed reload keeps value and reload id and keeps + extends '
+         'its dependencies; events sent before the request are taken before the update (barrier skeleton regenerated from hot_reloading/mod.rs). '
+         'The semantic statement (cached value = fresh load after hot_reload) is decided by the correspondence with the executable model plus the '
+         'fresh-load oracle after every quiescence barrier; it is FALSE of the code in two order-dependent situations recorded as known findings '
+         '(F-C05d asset first loaded during a pass, F-C05e asset rewired onto an asset changed in the same pass), each with a dedicated reproducer.',
+ 'design_ref': 'DESIGN.md §D C05, §E',
+ 'note': 'partial: semantic convergence over histories is not a theorem (the full statement is false, see the two known findings); the structural '
+         'theorems above are unbounded; HashSet iteration order is modelled as any order.',
  'technique': 'Lean 4 proof over executable model + differential correspondence'}
